@@ -185,8 +185,6 @@ class Job:
                 L.extend(["cmd %s 1013 0 null" % h, "cmd %s 1012 0 null" % h])
             # a few calls: the staging loops of the converting writers restart at every call
             cut = (len(vals) // (3 * self.ch)) * self.ch
-            if self.fmt.codec == 0x21:
-                cut -= cut % 2                               # KF-VOX-ODD: odd item counts are that finding's class
             parts = [vals[:cut], vals[cut:]] if 0 < cut < len(vals) and k % 2 == 0 else [vals]
             for p in parts:
                 L.append("w %s %s i %d %s" % (h, ty, len(p), K.hex_items(p, DIG[ty])))
@@ -248,8 +246,6 @@ class Job:
                 last = ty
                 cnt = rng.choice([1, 1, 2, 3, 7, 33, b - 1 if b > 2 else 5, b, b + 1, 2 * b + 1, 100, 1000, 4097])
                 cnt = max(1, min(cnt, 5000))
-                if self.fmt.codec == 0x21 and (cnt * ch) % 2:
-                    cnt += 1                                 # KF-VOX-ODD: odd item counts are that finding's class
                 L.append("r %s %s f %d" % (h, ty, cnt))
                 pos = min(frames, pos + cnt)
             L.append("close " + h)
@@ -459,8 +455,8 @@ def _twin_files(ctx, job, tyx, xs, tyy, ys, normoff=False):
 
 
 def shrink_twin(ctx, job, tyx, xs, tyy, ys, normoff=False):
-    """smallest prefix (whole frames, even for VOX) whose two files still differ, then drop leading frames while they still do"""
-    step = job.ch * (2 if job.fmt.codec == 0x21 and job.ch % 2 else 1)
+    """smallest prefix (whole frames) whose two files still differ, then drop leading frames while they still do"""
+    step = job.ch
     script, differs, _ = _twin_files(ctx, job, tyx, xs, tyy, ys, normoff)
     if not differs:
         return script, xs, ys
